@@ -57,6 +57,10 @@ class _Return(Exception):
         self.value = value
 
 
+class _BodyReturn(_Return):
+    """a `return` of the with-block that is being run in place of a context manager's `yield`"""
+
+
 class _Break(Exception):
     pass
 
@@ -171,6 +175,19 @@ class Evaluator(Folder):
                 self.outer_env[t.id] = v  # `nonlocal x` / `global x`: the binding of the defining frame is rebound
         elif isinstance(t, (ast.Tuple, ast.List)):
             vals = list(v)
+            stars = [i for i, x in enumerate(t.elts) if isinstance(x, ast.Starred)]
+            if len(stars) == 1:
+                # `a, *rest, z = xs`: the starred name takes what the others leave, as a list
+                i = stars[0]
+                after = len(t.elts) - i - 1
+                if len(vals) < len(t.elts) - 1:
+                    raise Raised("ValueError", t)
+                for a, b in zip(t.elts[:i], vals[:i]):
+                    self._assign(a, b)
+                self._assign(t.elts[i].value, vals[i : len(vals) - after])  # type: ignore
+                for a, b in zip(t.elts[i + 1 :], vals[len(vals) - after :] if after else []):
+                    self._assign(a, b)
+                return
             if len(vals) != len(t.elts):
                 raise Unfoldable("unpacking " + unparse(t))
             for a, b in zip(t.elts, vals):
@@ -414,18 +431,6 @@ class Evaluator(Folder):
                 body.append(ast.Assign(targets=[st.items[0].optional_vars], value=yielded if yielded is not None else ast.Constant(value=None), lineno=st.lineno, col_offset=0))
             body.extend(st.body)
 
-            class _Subst(ast.NodeTransformer):
-                def visit_Expr(self, n: ast.Expr) -> Any:  # noqa: N802
-                    if n is ys[0]:
-                        return _Marker()
-                    return n
-
-                def visit_FunctionDef(self, n: ast.FunctionDef) -> Any:  # noqa: N802
-                    return n if n is not node else self.generic_visit(n)
-
-            class _Marker(ast.stmt):
-                _fields = ()
-
             import copy as _copy
 
             # the helper's own frame: its parameters bound to the arguments; the with-body keeps the caller's frame.  Names of
@@ -433,30 +438,27 @@ class Evaluator(Folder):
             helper_env = self._bind_call(fn_, call_)
             outer = self
 
+            the_yield = ys[0]
+
             class _Inlined(Evaluator):
                 def _stmt(self, s: ast.stmt) -> None:  # type: ignore
-                    if isinstance(s, _Marker):
-                        outer._block(body)
+                    if s is the_yield:
+                        # (the tree is shared and left as it is: the manager may be entered again inside its own block)
+                        try:
+                            outer._block(body)
+                        except _Return as r_:
+                            raise _BodyReturn(r_.value)  # `return` inside the with-block leaves the *enclosing* function
                         return
                     super()._stmt(s)
 
-            tree = _Subst().visit(_copy.deepcopy(node) if False else node)
             ev = _Inlined(helper_env, self.repo, fn_.module, fn_.cls, self.hook)
             ev.depth = self.depth + 1
             try:
-                ev._block(body_without_docstring_(tree))
+                ev._block(body_without_docstring_(node))
+            except _BodyReturn as br_:
+                raise _Return(br_.value)
             except _Return:
                 pass
-            finally:
-                # restore the yield statement (the syntax tree is shared)
-                class _Back(ast.NodeTransformer):
-                    def generic_visit(self, n: ast.AST) -> ast.AST:  # type: ignore
-                        for field, old in ast.iter_fields(n):
-                            if isinstance(old, list):
-                                old[:] = [ys[0] if isinstance(x, _Marker) else (self.generic_visit(x) if isinstance(x, ast.AST) else x) for x in old]
-                        return n
-
-                _Back().generic_visit(tree)
         elif isinstance(st, ast.With):
             entered = []
             for item in st.items:
@@ -924,7 +926,11 @@ def construct(ctx: Any, cls: ClassInfo, *args: Any, hook: Any = None, **kwargs: 
     if cb is not None:
         # a class derived from a builtin container (class M(dict): ...): the instance *is* such a container, plus its methods
         o.__dict__["_base_"] = {"dict": dict, "list": list, "set": set}[cb]()
-    stmts, chain = flatten_init(repo, cls, inline_props=False, node_of=ctx.inl)
+    flat = ctx.__dict__.setdefault("_flat_init_cache", {})
+    if cls.qualname not in flat:
+        # (the flattened constructor is read, never changed, by the evaluation: one copy per class and run)
+        flat[cls.qualname] = flatten_init(repo, cls, inline_props=False, node_of=ctx.inl)
+    stmts, chain = flat[cls.qualname]
     if not chain and cb is not None:
         try:
             if cb == "dict":
@@ -1132,6 +1138,7 @@ class _RepoShim:
     """what call_fn needs of a rule context, for functions met as values during an evaluation"""
 
     _inliners: Dict[int, Any] = {}
+    _flat: Dict[int, Any] = {}
 
     def __init__(self, repo: Any):
         self.repo = repo
@@ -1141,6 +1148,7 @@ class _RepoShim:
         if k not in _RepoShim._inliners:
             _RepoShim._inliners[k] = (repo, Inliner(repo))
         self._inl = _RepoShim._inliners[k][1]
+        self._flat_init_cache = _RepoShim._flat.setdefault(k, {})  # flattened constructors (see construct), per repository
 
     def inl(self, fn: Any, keep: Sequence[str] = ()) -> Any:
         return self._inl.inlined(fn, keep=tuple(keep))
